@@ -200,6 +200,28 @@ Theorem C20_double_sign_run_repaired : double_sign_run_ok = true ->
 Proof. exact double_sign_run_repaired. Qed.
 Print Assumptions C20_double_sign_run_repaired.
 
+(* double-exponent-form (F-20d): the exponent of a double constant is an IDL integer constant -- a run of `-` signs, then decimal
+   or 0x digits (1.5e--3, 1e0x10).  The specification gives it IntConstant's own meaning (sign parity, hexadecimal value:
+   LitSpec.lit_value through Lit.exp_norm); the generator hands the text to f64::from_str and panics, unless parse_double rewrites
+   the exponent first (fam/gen/patches/double-exponent.diff, flag double_exponent_ok regenerated from context.rs) *)
+Theorem C20_double_exponent_refuted : double_exponent_ok = false ->
+  well_typed_lit pf0 (mkLS [] []) TyDouble (LFloat [x31; x2e; x35; x65; x2d; x2d; x33]) = true /\
+  default_val_lit pf0 (mkLS [] []) RF64 (LFloat [x31; x2e; x35; x65; x2d; x2d; x33]) = LPanic PParseFloat /\
+  default_val_lit pf0 (mkLS [] []) RF64 (LFloat [x31; x65; x30; x78; x31; x30]) = LPanic PParseFloat /\
+  pclass_top (mkLS [] []) (LFloat [x31; x2e; x35; x65; x2d; x2d; x33]) (item_cty RF64) = Some PCFloatExp /\
+  pclass_top (mkLS [] []) (LFloat [x31; x65; x30; x78; x31; x30]) (item_cty RF64) = Some PCFloatExp.
+Proof. exact double_exponent_refuted. Qed.
+Print Assumptions C20_double_exponent_refuted.
+
+Theorem C20_double_exponent_repaired : double_exponent_ok = true ->
+  default_val_lit pf0 (mkLS [] []) RF64 (LFloat [x31; x2e; x35; x65; x2d; x2d; x33]) = LOk (GDouble 4654311885213007872, true) /\
+  default_val_lit pf0 (mkLS [] []) RF64 (LFloat [x31; x65; x30; x78; x31; x30]) = LOk (GDouble 4846369599423283200, true) /\
+  default_val_lit pf0 (mkLS [] []) RF64 (LFloat [x31; x45; x2d; x30; x78; x31; x30]) = LOk (GDouble 4367597403136100796, true) /\
+  default_val_lit pf0 (mkLS [] []) (RSet ROrderedF64) (LList [LFloat [x2d; x31; x65; x2d; x2d; x2d; x32]]) = LOk (GSet [GDouble 13800290266158863483], false) /\
+  pclass_top (mkLS [] []) (LFloat [x31; x2e; x35; x65; x2d; x2d; x33]) (item_cty RF64) = None.
+Proof. exact double_exponent_repaired. Qed.
+Print Assumptions C20_double_exponent_repaired.
+
 (* open whatever the form, class no-arm: a string at `binary` with rust_type = "vec" *)
 Theorem C20_no_arm_refuted : exists parse_f64 S t l,
   well_typed_lit parse_f64 S (erase t) l = true /\ default_val_lit parse_f64 S t l = LPanic PUnexpectedLiteral /\
